@@ -156,6 +156,36 @@ def showItems (items : List (Except SErr Bytes)) : String :=
     | .ok b => "o" ++ hexOfBytes b
     | .error e => "e" ++ showErr e)
 
+/-- `o<hex>` | `e<Variant>:<msghex>` -/
+def parseTextItem (w : String) : Option (Except SErr Bytes) :=
+  match w.toList with
+  | 'o' :: h => (bytesOfHex (String.ofList h)).bind fun b =>
+      match fromUtf8 b with | .ok _ => some (.ok b) | .error _ => none
+  | 'e' :: r =>
+    match (String.ofList r).splitOn ":" with
+    | [v, mh] => (strOfHex mh).bind fun m => (mkErr "n" v m).map .error
+    | _ => none
+  | _ => none
+
+/-- `o<hex>` | `x<hex of raw error bytes>` -/
+def parseBytesItem (w : String) : Option WireChunk :=
+  match w.toList with
+  | 'o' :: h => (bytesOfHex (String.ofList h)).map .ok
+  | 'x' :: h => (bytesOfHex (String.ofList h)).map .error
+  | _ => none
+
+def showWire (items : List WireChunk) : String :=
+  if items.isEmpty then "-" else
+  ",".intercalate (items.map fun it => match it with
+    | .ok b => "o" ++ hexOfBytes b
+    | .error b => "x" ++ hexOfBytes b)
+
+/-- what the wire promises whatever the chunking: the text before the first error, and that error -/
+def prefixKey {ε : Type} : List (Except ε Bytes) → Bytes × Option ε
+  | [] => ([], none)
+  | .ok b :: rest => let (t, e) := prefixKey rest; (b ++ t, e)
+  | .error e :: _ => ([], some e)
+
 def step (_ : Unit) (line : String) : Unit × String :=
   let out :=
     match words line with
@@ -298,6 +328,24 @@ def step (_ : Unit) (line : String) : Unit × String :=
       match lookup3 fn typedFns, mutate spec [] with
       | some _, some _ => if side == "req" || side == "res" then "done ## ok" else "bad-op"
       | _, _ => "bad-op"
+    | ["streamout", kind, itemsH] =>
+      let ws := if itemsH == "none" then [] else itemsH.splitOn ","
+      if kind == "text" then
+        match ws.mapM parseTextItem with
+        | some items =>
+          let remote := textOutRemote noCustomError items
+          let good := prefixKey remote == prefixKey items
+          s!"{showItems remote} ## {if good then "ok" else "fail stream-out"}"
+        | none => "bad-op"
+      else if kind == "bytes" then
+        match ws.mapM parseBytesItem with
+        | some items =>
+          let remote := bytesOutRemote noCustomError items
+          let key := fun (l : List WireChunk) => let (t, e) := prefixKey l; (t, e.map (de noCustomError))
+          let good := key remote == key items
+          s!"{showWire remote} ## {if good then "ok" else "fail stream-out"}"
+        | none => "bad-op"
+      else "bad-op"
     | ["stream", kind, chunksH] =>
       let chunks? : Option (List Bytes) :=
         if chunksH == "none" then some [] else (chunksH.splitOn ",").mapM bytesOfHex
